@@ -66,6 +66,8 @@ fn main() {
             let mut out = BufWriter::with_capacity(1 << 20, stdout.lock());
             let thorough = tier == "thorough";
             match prop {
+                "C01" => duals::gen_c01(&mut out, thorough, seed),
+                "C02" => duals::gen_c02(&mut out, thorough, seed),
                 "C03" => duals::gen_c03(&mut out, thorough, seed),
                 "C17" => duals::gen_c17(&mut out, thorough, seed),
                 "C18" => duals::gen_c18(&mut out, thorough, seed),
